@@ -50,6 +50,12 @@ func main() {
 			os.Exit(selftestInstrumentedTests())
 		case "instrumenter":
 			os.Exit(selftestInstrumenter())
+		case "sim-constructs":
+			n := 120
+			if len(os.Args) > 3 {
+				fmt.Sscanf(os.Args[3], "%d", &n)
+			}
+			os.Exit(selftestSimConstructs(n))
 		}
 		usage()
 	case "run-seg":
